@@ -56,6 +56,8 @@ import (
 	"verif/vlib"
 )
 
+const whatFlushPathFile = "FlushPath(file) node, DAG read"
+
 func main() { vlib.Run("C20", run) }
 
 func run(c *vlib.Ctx) {
@@ -157,6 +159,7 @@ type op struct {
 	fdflush bool
 	rw      bool
 	n       int
+	wi      int // issuing worker
 }
 
 func (o op) String() string {
@@ -216,8 +219,10 @@ type world struct {
 
 	auxMu    sync.Mutex
 	aux      []*auxOp // intervals of Directory.SetMode/SetModTime (dirattr stratum) or Directory.Flush (dirflush stratum)
-	tokStart []int64  // per worker: interval of its last token step
-	tokEnd   []int64
+	tokStart  []int64 // per worker: interval of its current/last token step
+	tokEnd    []int64
+	tokSteps  [][][2]int64 // per worker: intervals of all its finished token steps
+	tokBroken []bool       // per worker: a token anomaly was reported, its location is no longer known
 
 	failMu sync.Mutex
 }
@@ -408,6 +413,8 @@ func oneRun(k *vlib.Case, stratum string) {
 	w.tokSeq = make([]int, nworkers)
 	w.tokStart = make([]int64, nworkers)
 	w.tokEnd = make([]int64, nworkers)
+	w.tokSteps = make([][][2]int64, nworkers)
+	w.tokBroken = make([]bool, nworkers)
 	for i := 0; i < nworkers; i++ {
 		must(mfs.PutNode(root, fmt.Sprintf("/a/t%d", i), emptyFile()))
 	}
@@ -440,7 +447,16 @@ func oneRun(k *vlib.Case, stratum string) {
 				case "dirflush":
 					o = op{kind: opDirFlush, path: vlib.Pick(rr, []string{"/", filepath.Dir(p)})}
 				case "dirattr":
-					o = op{kind: vlib.Pick(rr, []opKind{opDirSetMode, opDirSetMtime}), path: filepath.Dir(p), n: rr.Intn(0o777)}
+					// Only worker 0 sets directory attributes: two concurrent
+					// Directory.SetMode/SetModTime calls race on d.unixfsDir in
+					// dozens of (inner function) pairs, all one defect; a single
+					// caller still exposes its lost-update half through the token
+					// moves of the other workers.
+					if wi == 0 {
+						o = op{kind: vlib.Pick(rr, []opKind{opDirSetMode, opDirSetMtime}), path: filepath.Dir(p), n: rr.Intn(0o777)}
+					} else {
+						o = op{kind: opTokMv, n: j}
+					}
 				default:
 					o = op{kind: opRead, path: p}
 				}
@@ -470,6 +486,7 @@ func oneRun(k *vlib.Case, stratum string) {
 					o = op{kind: opMkdir, path: filepath.Dir(p), n: j}
 				}
 			}
+			o.wi = wi
 			plans[wi] = append(plans[wi], o)
 		}
 		var sb strings.Builder
@@ -599,6 +616,11 @@ func (w *world) opErr(step string, o op, err error) {
 	cl := "op-error/" + kindName[o.kind] + "-" + step
 	if errors.Is(err, os.ErrNotExist) {
 		cl += "-notexist"
+	}
+	if o.kind == opTokMv {
+		cl += w.tokTrigger(o.wi)
+	} else {
+		cl += w.knownTrigger(0, 0)
 	}
 	w.fail(cl, "operation on a healthy in-memory store succeeds", "nil error", fmt.Sprintf("%s: %v", o, err))
 }
@@ -751,7 +773,7 @@ func (w *world) exec(wi int, o op) {
 			w.rec.retAt(ids[i], t, out{Val: v})
 		}
 	case opFlushPathFile:
-		id := w.rec.call(in{Key: o.path, Kind: 'R', Client: wi, What: "FlushPath(file) node, DAG read"})
+		id := w.rec.call(in{Key: o.path, Kind: 'R', Client: wi, What: whatFlushPathFile})
 		idb := w.rec.call(in{Key: o.path, Kind: 'b', Client: wi, What: "FlushPath(file)"})
 		nd, err := mfs.FlushPath(ctx, w.root, o.path)
 		t := w.rec.now()
@@ -894,15 +916,22 @@ func (w *world) tokVal(wi int) string {
 // directory and read back. Only its owner touches it, so the expectation is
 // sequential; the directories it moves between are shared.
 func (w *world) tokenStep(wi int, o op) {
+	if w.tokBroken[wi] {
+		return
+	}
 	ctx := w.ctx
 	src := w.tokPath(wi, w.tokDir[wi])
 	n, err := mfs.Lookup(w.root, src)
 	if err != nil {
+		w.tokBroken[wi] = true
 		w.fail("token-lost"+w.tokClass(wi, "before-write"), "private file stays where its owner moved it", src, err.Error())
 		return
 	}
 	w.tokStart[wi], w.tokEnd[wi] = w.rec.now(), 1<<62
-	defer func() { w.tokEnd[wi] = w.rec.now() }()
+	defer func() {
+		w.tokEnd[wi] = w.rec.now()
+		w.tokSteps[wi] = append(w.tokSteps[wi], [2]int64{w.tokStart[wi], w.tokEnd[wi]})
+	}()
 	f, ok := n.(*mfs.File)
 	if !ok {
 		w.fail("lookup-type", "token stays a file", "*mfs.File", fmt.Sprintf("%T", n))
@@ -928,6 +957,7 @@ func (w *world) tokenStep(wi int, o op) {
 	w.noteOrphan(src, f)
 	dst := w.tokPath(wi, otherDir(w.tokDir[wi]))
 	if err := mfs.Mv(w.root, src, dst); err != nil {
+		w.tokBroken[wi] = true
 		w.opErr("mv", o, err)
 		return
 	}
@@ -948,22 +978,42 @@ func (w *world) knownTrigger(from, to int64) string {
 }
 
 func (w *world) tokClass(wi int, when string) string {
-	if t := w.knownTrigger(w.tokStart[wi], w.tokEnd[wi]); t != "" {
+	if t := w.tokTrigger(wi); t != "" {
 		return t
 	}
 	return "/" + when
 }
 
+// tokTrigger: a Directory.SetMode/SetModTime that overlaps one Mv leaves the
+// directory's UnixFS listing and its entry cache inconsistent; the damage can
+// surface at any later step of the same token, so every step so far counts.
+func (w *world) tokTrigger(wi int) string {
+	if t := w.knownTrigger(w.tokStart[wi], w.tokEnd[wi]); t != "" {
+		return t
+	}
+	for _, iv := range w.tokSteps[wi] {
+		if t := w.knownTrigger(iv[0], iv[1]); t != "" {
+			return t
+		}
+	}
+	return ""
+}
+
 func (w *world) checkToken(wi int, read func(string) (string, error), when string) {
+	if w.tokBroken[wi] {
+		return
+	}
 	at := w.tokPath(wi, w.tokDir[wi])
 	old := w.tokPath(wi, otherDir(w.tokDir[wi]))
 	v, err := read(at)
 	if err != nil {
+		w.tokBroken[wi] = true
 		w.fail("token-lost"+w.tokClass(wi, when), "moved private file is found at its destination", at, err.Error())
 	} else if v != w.tokVal(wi) {
 		w.fail("token-content"+w.tokClass(wi, when), "moved private file carries its last acknowledged write", w.tokVal(wi), v)
 	}
 	if _, err := read(old); err == nil {
+		w.tokBroken[wi] = true
 		w.fail("token-duplicate"+w.tokClass(wi, when), "moved private file is gone from its source", old+" absent", "still readable")
 	}
 }
@@ -1388,7 +1438,7 @@ func (w *world) summarise(completed bool) {
 		// were written): decide that clause separately, so that a mere new/old
 		// inversion between reads that overlap an unacknowledged write is not
 		// called a violation.
-		anomaly := lostWrite(init, strictOps)
+		akind, anomaly := lostWrite(init, strictOps)
 		if anomaly == "" {
 			c.Count("nonlinearizable_but_no_lost_write", 1)
 			c.Note("nonlinearizable_example", fmt.Sprintf("%s %s: %s", k.ID, key, strings.Join(tailLines(historyLines(strictOps), 12), " ; ")))
@@ -1397,6 +1447,13 @@ func (w *world) summarise(completed bool) {
 		class := "lost-write/" + w.stratum
 		note := ""
 		switch {
+		case akind == "future:"+whatFlushPathFile || akind == "phantom:"+whatFlushPathFile:
+			// FlushPath(file) returns the File's live node object and the
+			// harness reads it after stamping the return: a value from the
+			// future (or a mixture) means the node object that MFS handed out
+			// was changed afterwards.
+			class = "retained-node-mutated/" + w.stratum
+			note = " (the node object returned by MFS was read after the call had returned; its content was changed by a write that started later)"
 		case hasAttr:
 			switch vhist.Check(rmwModel(init), ops, 30*time.Second) {
 			case vhist.Ok:
@@ -1444,7 +1501,7 @@ func historyLines(ops []porcupine.Operation) []string {
 // the read returned, and (iii) is not stale: no write was acknowledged entirely
 // after v's write (was acknowledged) and entirely before the read began.
 // Otherwise it describes the first offending read.
-func lostWrite(init string, ops []porcupine.Operation) string {
+func lostWrite(init string, ops []porcupine.Operation) (kind, msg string) {
 	type wr struct {
 		val       string
 		call, ret int64 // ret = maxInt64 when never acknowledged
@@ -1485,7 +1542,7 @@ func lostWrite(init string, ops []porcupine.Operation) string {
 				}
 			}
 			if !okSize {
-				return fmt.Sprintf("File.Size [%d,%d] by c%d returned %d, the length of no value that may be current (last write acknowledged before it: %q by c%d [%d,%d], length %d)",
+				return "size", fmt.Sprintf("File.Size [%d,%d] by c%d returned %d, the length of no value that may be current (last write acknowledged before it: %q by c%d [%d,%d], length %d)",
 					r.Call, r.Return, i.Client, ov.N, short(last.val), last.client, last.call, last.ret, len(last.val))
 			}
 			continue
@@ -1498,13 +1555,13 @@ func lostWrite(init string, ops []porcupine.Operation) string {
 		}
 		switch {
 		case src == nil:
-			return fmt.Sprintf("%s [%d,%d] by c%d returned %q (%d bytes), which no write of the history carries", i.What, r.Call, r.Return, i.Client, short(ov.Val), len(ov.Val))
+			return "phantom:" + i.What, fmt.Sprintf("%s [%d,%d] by c%d returned %q (%d bytes), which no write of the history carries", i.What, r.Call, r.Return, i.Client, short(ov.Val), len(ov.Val))
 		case src.call >= r.Return:
-			return fmt.Sprintf("%s [%d,%d] by c%d returned %q before its write [%d,%d] was invoked", i.What, r.Call, r.Return, i.Client, short(ov.Val), src.call, src.ret)
+			return "future:" + i.What, fmt.Sprintf("%s [%d,%d] by c%d returned %q before its write [%d,%d] was invoked", i.What, r.Call, r.Return, i.Client, short(ov.Val), src.call, src.ret)
 		case !admissible(*src):
-			return fmt.Sprintf("lost write: %s [%d,%d] by c%d returned %q (written by c%d [%d,%d]) although write %q by c%d [%d,%d] was invoked after that write had been acknowledged and was itself acknowledged before the read began",
+			return "stale", fmt.Sprintf("lost write: %s [%d,%d] by c%d returned %q (written by c%d [%d,%d]) although write %q by c%d [%d,%d] was invoked after that write had been acknowledged and was itself acknowledged before the read began",
 				i.What, r.Call, r.Return, i.Client, short(ov.Val), src.client, src.call, src.ret, short(last.val), last.client, last.call, last.ret)
 		}
 	}
-	return ""
+	return "", ""
 }
